@@ -91,7 +91,10 @@ func (t *treePipeline) outputProgrammably(w io.Writer, root *Node, cfg *config) 
 	go func() {
 		defer close(rootStream)
 		verifPoint("feed.send")
-		rootStream <- root
+		select {
+		case rootStream <- root:
+		case <-ctx.Done():
+		}
 	}()
 	growStream, errcg := t.grower.grow(ctx, rootStream)
 	errcs := t.spreader.spread(ctx, w, growStream)
@@ -123,7 +126,10 @@ func (t *treePipeline) mkdirProgrammably(root *Node, cfg *config) error {
 	go func() {
 		defer close(rootStream)
 		verifPoint("feed.send")
-		rootStream <- root
+		select {
+		case rootStream <- root:
+		case <-ctx.Done():
+		}
 	}()
 	t.grower.enableValidation()
 	// when detect invalid node name, return error. process end.
@@ -158,7 +164,10 @@ func (t *treePipeline) verifyProgrammably(root *Node, cfg *config) error {
 	go func() {
 		defer close(rootStream)
 		verifPoint("feed.send")
-		rootStream <- root
+		select {
+		case rootStream <- root:
+		case <-ctx.Done():
+		}
 	}()
 	t.grower.enableValidation()
 	// when detect invalid node name, return error. process end.
@@ -187,7 +196,10 @@ func (t *treePipeline) walkProgrammably(root *Node, callback func(*WalkerNode) e
 	go func() {
 		defer close(rootStream)
 		verifPoint("feed.send")
-		rootStream <- root
+		select {
+		case rootStream <- root:
+		case <-ctx.Done():
+		}
 	}()
 	growStream, errcg := t.grower.grow(ctx, rootStream)
 	errcw := t.walker.walk(ctx, growStream, callback)
